@@ -300,6 +300,44 @@ def check_caller(case):
             "tags": [m, "shift-on" if case["shift"] else "shift-off", "num-" + case["num"]]}
 
 
+@st.composite
+def sequence_st(draw):
+    """One PairInteractions object asked for several models in a drawn order (the library's own Hessian code and its
+    test do exactly that).  Each answer must be the documented triple of THAT model with THAT call's parameters,
+    whatever was evaluated on the object before (seeded C12-D: a prefactor stored by inverse_power_law(A) leaked into
+    the next lennard_jones())."""
+    base = draw(case_st("harmonic_hertz"))        # r <= sigma: inside the domain of all three models
+    steps = []
+    for _ in range(draw(st.integers(2, 6))):
+        c = draw(case_st())
+        steps.append({"model": c["model"], "n": c["n"], "A": c["A"], "alpha": c["alpha"],
+                      "via": draw(st.sampled_from(["method", "caller", "caller-full"]))})
+    base["steps"] = steps
+    return base
+
+
+def check_sequence(case):
+    pair = make_pair(case)
+    tags, models = [], []
+    for k, stp in enumerate(case["steps"]):
+        c = dict(case, **{f: stp[f] for f in ("model", "n", "A", "alpha")})
+        name = f"step {k} ({stp['model']} via {stp['via']}) after {models or 'nothing'} on one object"
+        out = call_method(c, pair) if stp["via"] == "method" else call_caller(c, pair, full=stp["via"] == "caller-full")
+        compare_with_reference(name, triple(name, out), c, fd=False)
+        models.append(stp["model"])
+    pairs = {(a, b) for a, b in zip(models, models[1:])}
+    tags += sorted({f"{a[:3]}->{b[:3]}" for a, b in pairs})
+    tags.append("A!=1-before-lj" if any(s["model"] == "inverse_power_law" and s["A"] != 1.0 and
+                                        "lennard_jones" in models[i + 1:] for i, s in enumerate(case["steps"])) else "other-order")
+    return {"nontrivial": bool(len(set(models)) >= 2), "tags": tags}
+
+
+def describe_sequence(case):
+    d = describe(case)
+    d["steps"] = [(s["model"], s["via"], s["n"], s["A"], s["alpha"]) for s in case["steps"]]
+    return d
+
+
 def describe(case):
     return brief(case)
 
@@ -410,6 +448,10 @@ FACETS = [
           rule=_MODEL_RULE, shards_quick=2),
     Facet("harmonic_hertz", case_st("harmonic_hertz"), check, quick=1000, thorough=40000, describe=describe,
           rule=_MODEL_RULE, shards_quick=2),
+    Facet("call_sequence", sequence_st(), check_sequence, quick=800, thorough=30000, describe=describe_sequence,
+          rule="2..6 model evaluations (any of the three models, own parameters, via the method or the selector) on ONE "
+               "PairInteractions object; every answer compared with the documented triple of that call; non-trivial = "
+               ">= 2 different models in the sequence"),
     Facet("caller", case_st(None, via="caller"), check_caller, quick=600, thorough=20000, describe=describe,
           rule="all three models, every InteractionParams field populated; caller == named method (1e-13) == reference; "
                "non-trivial = epsilon, sigma != 1 and n not in {6, 12}"),
